@@ -15,6 +15,12 @@ package main
 //     event); every other round it also takes an index of an earlier round whose store has been rotated, has
 //     the store removed from allSegStores as removeStaleSegments does (writer.VerifC11CEvictOnly) and fans in on
 //     it again (first ingests on a stream whose suffix file already exists),
+//   - a BARRIER goroutine: six stores on four dedicated indexes (two indexes with two streams), each with a time
+//     window of its own; every few ms each store receives 1–2 events and then the six flushes (AppendWipToSegfile
+//     under the store's own lock) are released through one barrier; after the final rotation the .bsu file of
+//     every segment of these stores is read back: every block summary inside the store's window
+//     (conc/block-summary-of-another-segment), readable, record counts = acknowledged events, and a search of the
+//     index over the window returns exactly the acknowledged events,
 // and checks, per query, "no _vid twice" and "every _vid whose flush completed before the query began is
 // present" (count queries: at least that many), and, after everything stopped, "all _vid exactly once"; for the
 // fan-in indexes: after the final flush and after the final rotation a match-all query over them returns the
@@ -44,6 +50,8 @@ import (
 	eswriter "github.com/siglens/siglens/pkg/es/writer"
 	"github.com/siglens/siglens/pkg/hooks"
 	"github.com/siglens/siglens/pkg/segment/query"
+	"github.com/siglens/siglens/pkg/segment/reader/microreader"
+	"github.com/siglens/siglens/pkg/segment/structs"
 	"github.com/siglens/siglens/pkg/segment/writer"
 	log "github.com/sirupsen/logrus"
 )
@@ -303,6 +311,75 @@ func c11StressMain() {
 			}
 			nFanRounds.Add(1) // (not counted as progress: the stall watchdog keeps judging ingest / flush / rotation / search)
 			time.Sleep(time.Duration(100+r.Intn(100)) * time.Millisecond)
+		}
+	}()
+	// BARRIER rounds: six stores on four dedicated indexes (stores 4, 5 are second streams of the first two indexes),
+	// every store with a time window of its own; each round every store receives 1–2 events, then the six flushes
+	// (the real AppendWipToSegfile under the store's own lock, as an ingest-triggered flush) are released together.
+	// Checked after the final rotation (c11BarrierCheck): the .bsu file of every segment these stores ever wrote.
+	bfs := make([]*c11BF, 6)
+	for j := range bfs {
+		bfs[j] = &c11BF{j: j, index: fmt.Sprintf("c11bf%d", j%4), stream: fmt.Sprintf("vbf%d", j), segkeys: map[string]bool{}}
+	}
+	var nBarrier atomic.Int64
+	wg.Add(1)
+	go func() {
+		defer wg.Done()
+		r := rand.New(rand.NewSource(seed*19 + 3))
+		tsKey := config.GetTimeStampKey()
+		var stack [64]byte
+		for {
+			select {
+			case <-stop:
+				return
+			default:
+			}
+			for _, b := range bfs {
+				if k, ok := writer.VerifC11FSegKey(b.stream); ok {
+					b.segkeys[k] = true
+				}
+				var ples []*writer.ParsedLogEvent
+				var vids []int
+				for e := 1 + r.Intn(2); e > 0 && b.seq < c11fWindow-1; e-- {
+					vid := int(nextVid.Add(1))
+					ts := c11fBase + uint64(b.j*c11fWindow+b.seq)
+					b.seq++
+					raw := []byte(fmt.Sprintf(`{"_vid":%d,"m":"bf","%s":%d}`, vid, tsKey, ts))
+					ple, err := writer.GetNewPLE(raw, ts, b.index, &tsKey, stack[:])
+					if err != nil {
+						fail("conc/ingest-error", err.Error())
+						return
+					}
+					ples = append(ples, ple)
+					vids = append(vids, vid)
+				}
+				err := eswriter.ProcessIndexRequestPle(c11fBase, b.index, false, map[string]string{}, 0, 0, map[string]string{b.index: b.stream}, map[uint64]string{}, stack[:], ples)
+				writer.ReleasePLEs(ples)
+				if err != nil {
+					fail("conc/ingest-error", err.Error())
+					return
+				}
+				b.vids = append(b.vids, vids...)
+				if k, ok := writer.VerifC11FSegKey(b.stream); ok {
+					b.segkeys[k] = true
+				}
+			}
+			start := make(chan struct{})
+			var bwg sync.WaitGroup
+			for _, b := range bfs {
+				bwg.Add(1)
+				go func(b *c11BF) {
+					defer bwg.Done()
+					<-start
+					if err := writer.VerifC11FFlushStream(b.stream); err != nil {
+						fail("conc/flush-error", err.Error())
+					}
+				}(b)
+			}
+			close(start)
+			bwg.Wait()
+			nBarrier.Add(1)
+			time.Sleep(time.Duration(2+r.Intn(8)) * time.Millisecond)
 		}
 	}()
 	var flushMu sync.Mutex // orders barrier updates (flusher and rotator both flush)
@@ -629,13 +706,108 @@ func c11StressMain() {
 	writer.ForceRotateSegmentsForTest()
 	check("after final rotation")
 	fanCheck("after final rotation")
+	c11BarrierCheck(bfs, seed, fail)
 	mu.Lock()
 	total := len(ingestDone)
 	mu.Unlock()
-	fmt.Printf("done events=%d queries=%d rotations=%d flushes=%d faninrounds=%d fanincalls=%d faninevicted=%d procs=%d\n", total, nQueries.Load(), nRot.Load(), nFlush.Load(), nFanRounds.Load(), nFanCalls.Load(), nFanEvicted.Load(), runtime.GOMAXPROCS(0))
+	fmt.Printf("done events=%d queries=%d rotations=%d flushes=%d faninrounds=%d fanincalls=%d faninevicted=%d barrierrounds=%d procs=%d\n", total, nQueries.Load(), nRot.Load(), nFlush.Load(), nFanRounds.Load(), nFanCalls.Load(), nFanEvicted.Load(), nBarrier.Load(), runtime.GOMAXPROCS(0))
 	for _, f := range fails {
 		b, _ := json.Marshal(f)
 		fmt.Println("FAIL " + string(b))
+	}
+}
+
+// one store of the barrier rounds
+type c11BF struct {
+	j       int
+	index   string
+	stream  string
+	segkeys map[string]bool // every open-segment key the store was seen with
+	vids    []int           // acknowledged events
+	seq     int
+}
+
+// after everything was flushed and rotated: the block summaries of every segment of the barrier stores, read from
+// the .bsu FILES with the product's reader, lie in the store's own time window and count the store's events; a
+// match-all search of the index over the store's window returns exactly its acknowledged events
+func c11BarrierCheck(bfs []*c11BF, seed int64, fail func(sig, msg string)) {
+	for _, b := range bfs {
+		lo0 := c11fBase + uint64(b.j*c11fWindow)
+		// every .bsu file under the stream's directory (<…>/final/<index>/<stream>/<suffix>/<suffix>.bsu): the segment
+		// keys seen during the run only tell where that directory is
+		var keys []string
+		for k := range b.segkeys {
+			files, _ := filepath.Glob(filepath.Join(filepath.Dir(filepath.Dir(k)), "*", "*.bsu"))
+			for _, fn := range files {
+				keys = append(keys, strings.TrimSuffix(fn, ".bsu"))
+			}
+			break
+		}
+		sort.Strings(keys)
+		recs := 0
+		readable := true
+		for _, k := range keys {
+			fn := structs.GetBsuFnameFromSegKey(k)
+			if fn != k+".bsu" {
+				fail("conc/harness", "block summary file name is no longer <segkey>.bsu")
+				return
+			}
+			sums, _, err := microreader.ReadBlockSummaries(fn, true)
+			if err != nil {
+				readable = false
+				fail("conc/block-summary-unreadable", fmt.Sprintf("seed %d: barrier rounds (six stores flushing at the same instant): the block summary file %s of index %s, stream %s cannot be read after the rotation: %v", seed, fn[strings.Index(fn, "/final/")+1:], b.index, b.stream, err))
+				continue
+			}
+			for i, bs := range sums {
+				recs += int(bs.RecCount)
+				if bs.LowTs < lo0 || bs.HighTs >= lo0+c11fWindow || bs.LowTs > bs.HighTs {
+					fail("conc/block-summary-of-another-segment", fmt.Sprintf("seed %d: barrier rounds (six stores flushing at the same instant): block %d of segment %s (index %s, stream %s) carries the time range [%d, %d] and %d records; the events of this store lie in [%d, %d)", seed, i, k[strings.Index(k, "/final/")+1:], b.index, b.stream, bs.LowTs, bs.HighTs, bs.RecCount, lo0, lo0+c11fWindow))
+				}
+			}
+		}
+		if readable && recs != len(b.vids) {
+			fail("conc/block-summary-records-differ", fmt.Sprintf("seed %d: barrier rounds: the block summaries of the %d segments of index %s, stream %s count %d records for %d acknowledged events", seed, len(keys), b.index, b.stream, recs, len(b.vids)))
+		}
+		found := map[int]int{}
+		for once := true; once; once = false {
+			body := map[string]interface{}{
+				"searchText": "*", "startEpoch": float64(lo0), "endEpoch": float64(lo0 + c11fWindow - 1),
+				"indexName": b.index, "queryLanguage": "Splunk QL", "size": float64(100000), "from": float64(0),
+			}
+			resp, _, _, err := pipesearch.ParseAndExecutePipeRequest(body, uint64(900000+b.j), 0, time.Now(), "", nil)
+			if err != nil || resp == nil {
+				fail("conc/query-error", fmt.Sprintf("barrier rounds, search of index %s: %v", b.index, err))
+				break
+			}
+			for _, h := range resp.Hits.Hits {
+				switch v := h["_vid"].(type) {
+				case float64:
+					found[int(v)]++
+				case int64:
+					found[int(v)]++
+				case uint64:
+					found[int(v)]++
+				case json.Number:
+					n, _ := v.Int64()
+					found[int(n)]++
+				}
+			}
+		}
+		missing, twice := 0, 0
+		for _, v := range b.vids {
+			if found[v] == 0 {
+				missing++
+			}
+			if found[v] > 1 {
+				twice++
+			}
+		}
+		if missing > 0 {
+			fail("conc/flushed-event-missing-after-rotation", fmt.Sprintf("seed %d: barrier rounds (six stores flushing at the same instant): after the final rotation a match-all search of index %s over the time window of stream %s finds %d of its %d acknowledged events", seed, b.index, b.stream, len(b.vids)-missing, len(b.vids)))
+		}
+		if twice > 0 {
+			fail("conc/event-returned-twice", fmt.Sprintf("seed %d: barrier rounds: %d events of index %s, stream %s are returned more than once after the final rotation", seed, twice, b.index, b.stream))
+		}
 	}
 }
 
@@ -785,7 +957,7 @@ func execConcStress(line string) Result {
 			finished = true
 			for _, kv := range strings.Fields(l)[1:] {
 				p := strings.SplitN(kv, "=", 2)
-				if len(p) == 2 && (p[0] == "queries" || p[0] == "rotations" || p[0] == "faninrounds" || p[0] == "faninevicted") {
+				if len(p) == 2 && (p[0] == "queries" || p[0] == "rotations" || p[0] == "faninrounds" || p[0] == "faninevicted" || p[0] == "barrierrounds") {
 					if n, _ := strconv.Atoi(p[1]); n > 0 {
 						res.Tags = append(res.Tags, "had-"+p[0])
 					}
@@ -857,7 +1029,7 @@ func genConcStress(r *rand.Rand, n int, tier string) []string {
 
 func init() {
 	register(&Suite{Name: "concstress", Parallel: 1, Gen: genConcStress, Exec: execConcStress,
-		Rule: "EXPLORATION (supporting only): a separate engine process runs concurrent ingest on 2–3 indexes + periodic flush + forced rotation + repeated match-all / count queries + fan-in rounds (4–8 goroutines released together doing the FIRST ingest on each of 2–3 brand-new indexes, every other round also on an index whose rotated store was removed as stale) for a fixed time under GOMAXPROCS 1, 4, 16 (thorough tier: also a -race build) and checks per query: no event twice, every event flushed before the query began present; at quiescence: every event exactly once, every acknowledged first ingest of a fan-in round searchable; crash, stall and race-detector reports become findings"})
+		Rule: "EXPLORATION (supporting only): a separate engine process runs concurrent ingest on 2–3 indexes + periodic flush + forced rotation + repeated match-all / count queries + fan-in rounds (4–8 goroutines released together doing the FIRST ingest on each of 2–3 brand-new indexes, every other round also on an index whose rotated store was removed as stale) for a fixed time under GOMAXPROCS 1, 4, 16 (thorough tier: also a -race build) and checks per query: no event twice, every event flushed before the query began present; at quiescence: every event exactly once, every acknowledged first ingest of a fan-in round searchable; barrier rounds (six stores on four further indexes, two of them with two streams, flushed at the same instant every few ms): after the final rotation every block summary read from the .bsu files lies in its own store's time window and the events are searchable; crash, stall and race-detector reports become findings"})
 }
 
 func init() { registerWorker("c11stress", c11StressMain) }
